@@ -186,6 +186,8 @@ def compare_traces(A, B, exact, out, C, where):
                 return
             if nm.endswith(":beyond_real_visits"):
                 continue
+            if not exact and nm == "nll_tot":
+                continue  # sum of two large terms of opposite signs that are both compared on their own (nll_attach, nll_regul_ind_sum)
             if exact:
                 ok = np.array_equal(a, b, equal_nan=True)
             else:
